@@ -210,6 +210,26 @@ theorem C08_update_of_valid (b : Bundle) (h : b.checkAllCrc = []) : b.updateAllC
     intro c hcm
     exact Canonical.update_of_check c (hc c hcm)
 
+/-- `update_crc(keep_existing=True)`: a block without a value gets the right one (and passes its
+    check), a block that has a value keeps exactly that value, CRC type 0 ends without a value. -/
+theorem C08_update_keep (c : Canonical) :
+    (c.crc = none → c.updateCrcKeep.checkCrc = true)
+    ∧ (∀ v, c.crcType ≠ 0 → c.crc = some v → c.updateCrcKeep = c)
+    ∧ (c.crcType = 0 → c.updateCrcKeep.crc = none ∧ c.updateCrcKeep.checkCrc = true) := by
+  refine ⟨?_, ?_, ?_⟩
+  · intro h
+    have : c.updateCrcKeep = c.updateCrc := by
+      unfold Canonical.updateCrcKeep Canonical.updateCrc
+      split
+      · rfl
+      · simp [h]
+    rw [this]; exact Canonical.check_update c
+  · intro v h0 hv
+    have : (c.crcType == 0) = false := by simpa using h0
+    simp [Canonical.updateCrcKeep, this, hv]
+  · intro h0
+    simp [Canonical.updateCrcKeep, Canonical.checkCrc, h0]
+
 /-! ### surplus array items ⇒ rejected -/
 
 /-- A canonical block whose array head announces a number of items different from what its CRC type
